@@ -421,14 +421,15 @@ Definition step (cf : cfg) (s : st) (l : label) : option st :=
           end
       | None => None
       end
-  | LUserClose c =>         (* one more Close on the connection object, by anybody, at any time after wrapping *)
+  | LUserClose c =>         (* one more Close on the connection object by somebody else than its goroutine; others can hold a
+                               reference from the moment the request loop runs (s.idleConns, ctx.Conn(), the hijackConn) *)
       match nth_error (conns s) c with
       | Some r =>
           match ph r with
-          | PArrived | PIPOver => None
-          | _ =>
+          | PServing | PEnding | PEnded | PServed | PReleasing | PDone =>
               let (m', r') := close_conn (perip s) r in
               Some (mkSt (concurrency s) (open s) (serving s) m' (upd (conns s) c r') (loops s))
+          | _ => None
           end
       | None => None
       end
